@@ -10,7 +10,7 @@ RULE = ("boundary-directed: for each of the 14 primitive kinds + time.Duration (
         "{min-1,min,min+1,-1,0,1,max-1,max,max+1} of every sized type, +-2^63, 2^64, 2^53+-1, NaN, +-Inf, +-0, subnormals, the floats "
         "adjacent to each integer boundary, random bit patterns, duration boundaries (+-9223372036 s), and strings in every literal "
         "syntax (0x, 0o, 0b, underscores, signs, exponents, inf, nan, durations); each value literal and behind ${...}; plus the typed "
-        "getters (kind 'ops'). Oracle: Spec.C03.specConv (exact value, range, truncation toward zero, seconds). Non-trivial: the value "
+        "getters (kind 'ops'). Oracle: Spec.C03.specConv (exact value, range, truncation toward zero, seconds). Plus: reads through a reference after the referenced setting held another value and was read once ('before'). Non-trivial: the value "
         "is not representable in, or lies on a boundary of, the target. Distinct by (source kind, target kind, decision of the oracle, "
         "boundary class).")
 TRUSTED_BASE = ["Lean 4 kernel", "extractor: guards of cfgFloat.toInt/toUint, cfgUint.toInt, cfgInt.toUint (regenerated from types.go)",
